@@ -4,6 +4,7 @@ import (
 	"bytes"
 	"fmt"
 	"go/token"
+	"go/types"
 	"golang.org/x/tools/go/callgraph"
 	"os"
 	"strings"
@@ -33,8 +34,36 @@ func (p *Program) isHelper(caller, callee *ssa.Function) bool {
 		return false
 	}
 	if callee.Object().Exported() {
-		// API functions are anchors of their own, except trivial pure accessors (one block, no calls)
-		return tinyPure(callee) && (caller.Pkg == nil || caller.Pkg == callee.Pkg)
+		// API functions are anchors of their own, except trivial pure accessors (one block, no calls) and
+		// small package-level checks (no receiver, result error or bool only) such as a shared validity test
+		if tinyPure(callee) && (caller.Pkg == nil || caller.Pkg == callee.Pkg) {
+			return true
+		}
+		sig := callee.Signature
+		if sig.Recv() == nil && sig.Results().Len() == 1 && !strings.HasPrefix(callee.Name(), "New") && !strings.HasPrefix(callee.Name(), "Set") {
+			rt := sig.Results().At(0).Type()
+			isBool := false
+			if b, ok := rt.Underlying().(*types.Basic); ok && b.Kind() == types.Bool {
+				isBool = true
+			}
+			if isErrorType(rt) || isBool {
+				n := 0
+				for _, b := range callee.Blocks {
+					n += len(b.Instrs)
+				}
+				// a check on its own arguments: no calls into the module, no interface dispatch
+				for _, c := range allCalls(callee) {
+					if c.Common().IsInvoke() {
+						return false
+					}
+					if cf := c.Common().StaticCallee(); cf != nil && cf.Pkg != nil && isModulePath(cf.Pkg.Pkg.Path()) {
+						return false
+					}
+				}
+				return n <= 60 && !p.protected(callee)
+			}
+		}
+		return false
 	}
 	if caller.Pkg != nil && caller.Pkg != callee.Pkg {
 		return false
@@ -214,7 +243,6 @@ func (p *Program) UnitsIn(pred func(path string) bool) []*ssa.Function {
 
 func (p *Program) UUnits() []*ssa.Function { return p.UnitsIn(inUniverse) }
 
-
 // viewKeeping builds a view of fn in which the callees satisfying keep stay calls (they are units of the rule
 // that asks); not cached.
 func (p *Program) viewKeeping(fn *ssa.Function, keep func(*ssa.Function) bool) *ssa.Function {
@@ -233,7 +261,6 @@ func (p *Program) viewKeeping(fn *ssa.Function, keep func(*ssa.Function) bool) *
 	return nf
 }
 
-
 // tinyPure: a single basic block of at most eight instructions without calls, stores or allocation.
 func tinyPure(f *ssa.Function) bool {
 	if len(f.Blocks) != 1 || len(f.Blocks[0].Instrs) > 8 {
@@ -248,7 +275,6 @@ func tinyPure(f *ssa.Function) bool {
 	}
 	return true
 }
-
 
 // asUnits: in view mode, replace each function by its view and leave out the helpers folded into others.
 func (p *Program) asUnits(fns []*ssa.Function) []*ssa.Function {
